@@ -749,7 +749,10 @@ def Norm(array: FeArray.FeArrayALike, **kwargs) -> FeArray.FeArrayALike:
     res: FeArray.FeArrayALike = np.linalg.norm(array, **kwargs)
 
     if isinstance(array, FeArray):
-        res = FeArray.asfearray(res)
+        if _KeepsFeAxes(kwargs.get("axis"), array.ndim):
+            res = FeArray.asfearray(res)
+        else:
+            res = np.asarray(res)
 
     return res
 
